@@ -4,8 +4,21 @@ From PV Require Import Np.NpZ Gen.GenUtils Proofs.NpZProofs Proofs.UtilsProofs M
 Import ListNotations.
 Local Open Scope Z_scope.
 
+(* Python's "mode in range(ndims)" (membership in the enumerated modes) is the two-sided comparison of the precondition *)
+Lemma zmem_arange N n : zmem n (np_arange 0 N) = in_range N n.
+Proof.
+  unfold in_range. destruct (zmem n (np_arange 0 N)) eqn:E.
+  - unfold zmem in E. apply existsb_exists in E as (y & Hy & Exy). apply Z.eqb_eq in Exy. subst y.
+    apply in_np_arange in Hy. symmetry. apply andb_true_iff. split; [apply Z.leb_le|apply Z.ltb_lt]; lia.
+  - symmetry. apply not_true_is_false. intros H. apply andb_true_iff in H as [H0 H1]. apply Z.leb_le in H0. apply Z.ltb_lt in H1.
+    assert (Hin : In n (np_arange 0 N)) by (apply in_np_arange; lia).
+    assert (Hm : zmem n (np_arange 0 N) = true)
+      by (unfold zmem; apply existsb_exists; exists n; split; [assumption|apply Z.eqb_refl]).
+    congruence.
+Qed.
+
 Theorem mode_decides s n : guard_mode s n = decide (pre_mode s n).
-Proof. reflexivity. Qed.
+Proof. unfold guard_mode, pre_mode, chk, decide. now rewrite zmem_arange. Qed.
 
 Lemma forallb_and {A} (f g : A -> bool) l : forallb f l && forallb g l = forallb (fun x => f x && g x) l.
 Proof.
